@@ -579,9 +579,9 @@ func expandGuard(g guard, depth int) []guard {
 				}
 			})
 			if len(rets) == 1 && len(rets[0].Results) == 1 {
-				if _, isPhi := rets[0].Results[0].(*ssa.Phi); isPhi {
+				if _, isPhi := returnedValue(rets[0], 0).(*ssa.Phi); isPhi {
 					var out []guard
-					for _, g2 := range expandGuard(guard{cond: rets[0].Results[0], val: val, blk: rets[0].Block()}, depth+1) {
+					for _, g2 := range expandGuard(guard{cond: returnedValue(rets[0], 0), val: val, blk: rets[0].Block()}, depth+1) {
 						g2.via = hc
 						out = append(out, g2)
 					}
@@ -718,7 +718,7 @@ func boolHelperCmp(v ssa.Value) (*ssa.BinOp, bool) {
 	if !ok || len(ret.Results) != 1 {
 		return nil, false
 	}
-	bin, ok := ret.Results[0].(*ssa.BinOp)
+	bin, ok := returnedValue(ret, 0).(*ssa.BinOp)
 	if !ok {
 		return nil, false
 	}
